@@ -230,6 +230,10 @@ def b_int(I, args, kw):
 
 
 PYINT = z3.Function("py.int_of_str", z3.StringSort(), z3.IntSort())
+import sys as _sys
+INT_MAX_STR_DIGITS = (_sys.get_int_max_str_digits() if hasattr(_sys, "get_int_max_str_digits") else 0) or 4300
+INT_LIMIT_MODEL = 64
+TOO_MANY_DIGITS = z3.Function("py.int_str_exceeds_digit_limit", z3.StringSort(), z3.BoolSort())
 
 
 def int_of_str(I, s):
@@ -239,6 +243,18 @@ def int_of_str(I, s):
     I.ctx.use("T-py:int(str) grammar = WS* [+-]? Nd(_?Nd)* WS*; value = a function of the string")
     c = I.ctx
     r = PYINT(s)
+    # CPython >= 3.11: int() of a decimal string with more than sys.get_int_max_str_digits() (default 4300) digits raises ValueError
+    # Over-approximated so that the solver never has to build a 4301-character witness: the model lets int() refuse ANY string
+    # longer than INT_LIMIT_MODEL characters (predicate TooManyDigits, constrained only by that length bound).  Every real refusal
+    # (more than 4300 digits) is covered; code that int()s a string of known length between the two bounds could get a false alarm.
+    if not I.reg.modconsts.get("py.int_digit_limit"):
+        # harnesses whose strings are bounded by A-names (file names / object keys <= 1024 bytes < the limit) do not enable the rule
+        c.use(f"T-py:int(str): the interpreter's digit limit ({INT_MAX_STR_DIGITS}) is not reachable here (A-names: parsed names are at most 1024 bytes)")
+    elif c.decide(TOO_MANY_DIGITS(s), "int-str-exceeds-the-digit-limit"):
+        c.assume(z3.Length(s) > INT_LIMIT_MODEL)
+        c.use(f"T-py:int(str) raises ValueError beyond {INT_MAX_STR_DIGITS} digits (sys.get_int_max_str_digits of the running interpreter); "
+              f"modelled as: may refuse any string longer than {INT_LIMIT_MODEL} characters")
+        raise PyExc("ValueError", "Exceeds the limit for integer string conversion")
     if c.decide(z3.InRe(s, z3.Plus(ASCII_DIGIT)), "int-ascii"):
         c.assume(r == z3.StrToInt(s))
         c.assume(r >= 0)
